@@ -6,7 +6,7 @@
 //@ fns: OsuGradualDifficulty::next (Iterator::next)
 //@ bound: unbounded: every number of hit objects N, every position idx
 //@ clause: for ALL N: pre: invariant. post: Some iff idx < N; then idx' = idx+1, the attributes count exactly one more object unless this is the first value (whose object `new` counted up front); else the calculator is unchanged; invariant preserved; diff_objects[idx-1] in bounds; no overflow
-//@ obl: id=U12.osu.len.verus fn=OsuGradualDifficulty::len props=C15,C05 tier=quick kind=proof twin=yes
+//@ obl: id=U12.osu.len.verus fn=OsuGradualDifficulty::len props=C15,C05 tier=quick kind=proof twin=yes pair=U12.osu.protocol.n1
 //@ fns: OsuGradualDifficulty::len (ExactSizeIterator::len)
 //@ bound: unbounded
 //@ clause: for ALL N: under the invariant len() == N - idx, without underflow; 0 for maps without objects
